@@ -114,3 +114,46 @@ Section Main.
     validate fx ueq false W = [] -> WF fx ueq W.
   Proof. intros W HR HU H. apply (validate_nil_iff W HR HU) in H. tauto. Qed.
 End Main.
+
+(* ------------------------------------------------------------------ the two model-wide passes, one step towards their declarative form *)
+
+Lemma dup_strings_nil : forall l seen, dup_strings l seen [] = [] <-> NoDup l /\ (forall s, In s l -> ~ In s seen).
+Proof.
+  induction l as [|s r IH]; intro seen; cbn [dup_strings].
+  - split; [intros _; split; [constructor | intros s []] | reflexivity].
+  - destruct (str_in s seen) eqn:E.
+    + cbn [str_in existsb]. split; [intro H; discriminate H|]. intros [_ H]. exfalso. apply (H s); [left; reflexivity | apply str_in_iff; exact E].
+    + apply str_in_false_iff in E. rewrite IH. split.
+      * intros [H1 H2]. split.
+        -- constructor; [|exact H1]. intro Hin. apply (H2 s Hin). left. reflexivity.
+        -- intros x [Hx|Hx]; [subst; exact E|]. intro Hs. apply (H2 x Hx). right. exact Hs.
+      * intros [H1 H2]. inversion H1; subst. split; [assumption|]. intros x Hx [Hs|Hs]; [subst; contradiction | apply (H2 x); [right; exact Hx | exact Hs]].
+Qed.
+
+Lemma has_dup_z_false : forall l, has_dup_z l = false <-> NoDup l.
+Proof.
+  induction l as [|x r IH]; cbn [has_dup_z].
+  - split; [constructor | reflexivity].
+  - rewrite orb_false_iff, IH. split.
+    + intros [H1 H2]. constructor; [|exact H2]. intro Hin. assert (Ht : existsb (Z.eqb x) r = true) by (apply existsb_exists; exists x; split; [exact Hin | apply Z.eqb_refl]). congruence.
+    + intro H. inversion H; subst. split; [|assumption]. apply not_true_is_false. intro Ht. apply existsb_exists in Ht.
+      destruct Ht as [y [Hy Hxy]]. apply Z.eqb_eq in Hxy. subst y. contradiction.
+Qed.
+
+(** checkUniqueIds is silent iff the ids met on the way that must be XML names are, and the collected ids are pairwise distinct *)
+Theorem ids_pass_nil : forall fx m,
+  check_unique_ids fx m = [] <-> ia_issues (model_idacc fx m) = [] /\ NoDup (ia_ids (model_idacc fx m)).
+Proof.
+  intros fx m. unfold check_unique_ids. cbv zeta. rewrite app_nil_iff, map_nil_iff, dup_strings_nil. split.
+  - intros [H1 [H2 _]]. split; assumption.
+  - intros [H1 H2]. split; [exact H1|]. split; [exact H2 | intros s _ []].
+Qed.
+
+(** checkUniqueResetOrders is silent iff within every group of the order map the orders are pairwise distinct *)
+Theorem orders_pass_nil : forall ws m,
+  check_unique_reset_orders ws m = [] <-> Forall (fun kv => NoDup (snd kv)) (build_omap ws m).
+Proof.
+  intros ws m. unfold check_unique_reset_orders. rewrite flat_map_nil_iff, !Forall_forall. split; intros H kv Hkv; specialize (H kv Hkv).
+  - apply has_dup_z_false. destruct (has_dup_z (snd kv)); [discriminate H | reflexivity].
+  - apply has_dup_z_false in H. rewrite H. reflexivity.
+Qed.
